@@ -47,6 +47,7 @@ Section ScanPlain.
                          c <> c_backslash /\ okc c = true /\
                          (forall x, In x (sp_specials P) -> starts_with x [c] = false)
     | KSpace | KPar => exists c r, txt t = c :: r /\ sp_is_space P c = true
+                                   /\ forallb (sp_is_space P) (txt t) = true
     | _ => False
     end.
 
@@ -56,6 +57,14 @@ Section ScanPlain.
     destruct x as [|y x]; [discriminate|]. simpl.
     destruct (N.eqb y c); [|reflexivity]. simpl.
     destruct x; [discriminate | reflexivity].
+  Qed.
+
+  Lemma index_where_prefix (f : char -> bool) : forall l,
+    forallb (fun x => negb (f x)) (firstn (index_where f l) l) = true.
+  Proof.
+    unfold index_where. induction l as [|x l IH]; [reflexivity|]. simpl.
+    destruct (f x) eqn:E; [reflexivity|].
+    destruct (find_index f l) as [i|]; simpl; rewrite E; simpl; exact IH.
   Qed.
 
   Lemma scan_aux_plain : forall fuel s start,
@@ -82,13 +91,19 @@ Section ScanPlain.
       assert (Htxt : exists r, firstn n (c :: s') = c :: r).
       { unfold n. simpl. eexists. reflexivity. }
       destruct Htxt as [r Htxt].
+      assert (Hall : forallb (sp_is_space P) (firstn n (c :: s')) = true).
+      { unfold n. cbn [firstn forallb]. rewrite Esp. cbn [andb].
+        pose proof (index_where_prefix (fun x => negb (sp_is_space P x)) s') as Hi.
+        rewrite forallb_forall in Hi. apply forallb_forall. intros a Ha.
+        specialize (Hi a Ha). cbv beta in Hi. destruct (sp_is_space P a); [reflexivity | discriminate]. }
       destruct (Nat.ltb (count_char c_nl (firstn n (c :: s'))) 2);
         rewrite Hmax;
         destruct (IH (skipn n (c :: s')) (start + Z.of_nat n) Hlen Hpl) as (G & F & D);
         destruct (scan_aux P latex k (skipn n (c :: s')) (start + Z.of_nat n)) as [ts ds];
         cbn [fst snd] in *; cbn [get_txt_pos]; rewrite G;
         (split; [|split; [constructor; [|exact F] | rewrite D; reflexivity]]);
-        try (split; [reflexivity|]; cbn [tk mk]; exists c, r; split; [exact Htxt | exact Esp]).
+        try (split; [reflexivity|]; cbn [tk mk txt]; exists c, r;
+             split; [exact Htxt | split; [exact Esp | exact Hall]]).
       all: unfold tok_positions; cbn [pfix txt mk pos]; rewrite firstn_skipn; f_equal;
         rewrite firstn_length, Nat.min_l by lia;
         rewrite <- zseq_app; f_equal; rewrite skipn_length; lia.
